@@ -907,6 +907,19 @@ func (c *Ctx) havoc(st *State, locs []ModLoc, ntop T) {
 			}
 			c.heapSet(st, m.Key, m.Sort, nh)
 		}
+		if m.HasRange {
+			v := c.sc.fresh("hv."+smtSym(m.Key), inner)
+			old := sel(h, m.Ref)
+			c.sc.assume(fmt.Sprintf("(forall ((i Int)) (! (=> (not (and (<= %s i) (< i %s))) (= (select %s i) (select %s i))) :pattern ((select %s i))))", m.RLo, m.RHi, v, old, v))
+			if known {
+				x := "(select " + v + " i)"
+				if f := c.leafFact(l, x, ntop); f != "true" {
+					c.sc.assume(fmt.Sprintf("(forall ((i Int)) (! %s :pattern (%s)))", f, x))
+				}
+			}
+			guardSet(sto(h, m.Ref, v))
+			continue
+		}
 		if m.HasIdx {
 			_, leaf := innerSort(inner)
 			v := c.sc.fresh("hv."+smtSym(m.Key), leaf)
@@ -1022,7 +1035,9 @@ func (c *Ctx) frameObligations(name string, from, to *State, locs []ModLoc, reac
 			if g == "" {
 				g = "true"
 			}
-			if m.HasIdx && twoLevel {
+			if m.HasRange && twoLevel {
+				excl = append(excl, not(and(g, eq(r, m.Ref), le(m.RLo, j), lt(j, m.RHi))))
+			} else if m.HasIdx && twoLevel {
 				excl = append(excl, not(and(g, eq(r, m.Ref), eq(j, m.Idx))))
 			} else {
 				excl = append(excl, not(and(g, eq(r, m.Ref))))
